@@ -254,6 +254,17 @@ def s1b(ctx, F):
         for c, anc in hir.walk(body):
             if c.get("k") == "MethodCall" and c["name"] == "set_position" and sets and hir.raw_line(c) >= hir.raw_line(sets[0]):
                 sq, val = sym(c["args"][0]), sym(c["args"][1])
+                if sq[0] == "var":
+                    # `let position = self.get_king_position(p);` immediately before the call (no mutation in between)
+                    blk = [a for a in anc if a.get("k") in ("Block", "Loop")][-1]
+                    sts = blk.get("stmts") or []
+                    for i, st in enumerate(sts):
+                        if any(x is c for x, _ in hir.walk(st)) and i > 0:
+                            prev = sts[i - 1]
+                            if prev.get("k") == "SLet" and prev["pat"].get("name") == sq[1]:
+                                real = sym(prev["init"])
+                                val = hir.subst(val, {sq: real})
+                                sq = real
                 if sq[0] == "call" and str(sq[1]).endswith("Game::get_king_position") and \
                         val == ("call", "chess::Game::get_position", (("var", "self"), sq)):
                     who = sq[2][1]
